@@ -86,6 +86,18 @@ def drivers(sim):
         _walk(block, [], out)
     for clk, block in sim.m["syncs"]:
         _walk(block, [], out)
+    # an executed instance drives its output connections from all of its input connections
+    for inst in sim.m.get("instances", []):
+        cell = getattr(sim, "cells", {}).get(inst.get("cell")) if inst.get("structured") else None
+        if cell is None:
+            continue
+        conn = dict(inst["ports"])
+        ins = [conn[p] for p in cell[0] if conn.get(p) is not None]
+        for p in cell[1]:
+            if conn.get(p) is not None:
+                for n in lhs_names(conn[p]):
+                    for e in ins:
+                        out.setdefault(n, []).append((e, [], conn[p]))
     return out
 
 
